@@ -253,12 +253,26 @@ def rule_X3(ctx: Ctx) -> None:
               "five pairwise distinct colours and five pairwise distinct characters with the same field names",
               "two roles share a colour/character: the rendering cannot be read back")
     v = m.assigns["ASCII_PIXEL_PAIRINGS"]
-    ok = isinstance(v, ast.Dict)
+    # folded (E11): whatever way the table is assembled (one literal, pieces spliced with **, a comprehension over the field names), its value
+    # must be {AsciiChars.N: PixelColors.N for every N}
+    from sa.absobj import make_name_hook
+    from sa.fold import Obj as _Obj
+
+    ns = {"AsciiChars": _Obj("AsciiChars", dict(chars)), "PixelColors": _Obj("PixelColors", {k_: tuple(c_) for k_, c_ in cols.items()})}
+
+    def _nh(name, env_):
+        if name in ns:
+            return ns[name]
+        if name in m.assigns:
+            return Evaluator({"__name__": _nh}).ev(m.assigns[name], {})
+        return make_name_hook(ctx.index, m, lambda: {})(name, env_)
     pairs = []
-    if ok:
-        for k, val in zip(v.keys, v.values):
-            pairs.append((dotted_of(k), dotted_of(val)))
-        ok = sorted(pairs) == sorted((f"AsciiChars.{n}", f"PixelColors.{n}") for n in cols)
+    try:
+        table = Evaluator({"__name__": _nh}).ev(v, {})
+        ok = isinstance(table, dict) and {k_: tuple(c_) for k_, c_ in table.items()} == {chars[n]: tuple(cols[n]) for n in cols}
+        pairs = sorted((k_, list(c_)) for k_, c_ in table.items()) if isinstance(table, dict) else repr(table)[:80]
+    except Unknown as e:
+        ok, pairs = None, f"undecided: {e}"[:120]
     ctx.judge(where, ok, {"pairs": pairs}, "ASCII_PIXEL_PAIRINGS pairs AsciiChars.N with PixelColors.N for every N",
               "a character is paired with another role's colour: ASCII and pixel renderings disagree")
     # as_ascii plumbing
@@ -290,9 +304,30 @@ def rule_X3(ctx: Ctx) -> None:
         for s in ast.walk(loop[0]))
     ctx.judge(a, ok, {"loop": X.U(loop[0].iter) if loop else None}, "each overlaid character goes exactly where the pixel image has its paired colour")
     ag = ctx.index.func(f"{LM}.LatticeMaze._as_ascii_grid")
-    ok = "self._as_pixels_bw()" in X.U(ag.node) and "AsciiChars.WALL" in X.U(ag.node) and any(
-        isinstance(s, ast.Assign) and X.U(s.targets[0]).replace(" ", "") in ("ascii_grid[pixel_grid==True]", "ascii_grid[pixel_grid]") and X.U(s.value) == "AsciiChars.OPEN" for s in ast.walk(ag.node))
-    ctx.judge(ag, ok, {}, "the character grid starts all WALL with OPEN where the black/white image is True")
+    # abstract evaluation on a 3x3 black/white pattern: WALL where the image is False, OPEN where it is True
+    from sa.absnp import MODELS as _NPM, Arr as _Arr
+    from sa.fold import EvalRaised as _ER
+
+    bw = [[False, True, False], [True, True, False], [False, False, True]]
+
+    def _hook(ev_, node, env_):
+        d_ = dotted_of(node.func) or ""
+        if d_.endswith("._as_pixels_bw"):
+            return _Arr([list(r_) for r_ in bw])
+        if d_ in _NPM:
+            return _NPM[d_](*ev_._elts(node.args, env_), **{k_.arg: ev_.ev(k_.value, env_) for k_ in node.keywords if k_.arg})
+        return NotImplemented
+    try:
+        got = Evaluator({"__call__": _hook, "__name__": lambda n_, e_: ns[n_] if n_ in ns else make_name_hook(ctx.index, m, lambda: {"__call__": _hook})(n_, e_)}).run_body(
+            X.body_wo_doc(ag.node), {ag.params()[0]: _Obj("self", {})})
+        want = [[chars["OPEN"] if c_ else chars["WALL"] for c_ in r_] for r_ in bw]
+        ok = isinstance(got, _Arr) and got.data == want
+        shown = got.data if isinstance(got, _Arr) else repr(got)[:80]
+    except _ER as e:
+        ok, shown = False, f"raises {e.exc_name}"
+    except Unknown as e:
+        ok, shown = None, f"undecided: {e}"[:120]
+    ctx.judge(ag, ok, {"black_white_pattern": bw, "characters": shown}, "the character grid is WALL where the black/white image is False and OPEN where it is True")
     # from_ascii
     fa = ctx.index.func(f"{LM}.LatticeMaze.from_ascii")
     gd = X.assignments_to(fa.node, "ascii_grid")
